@@ -1624,6 +1624,28 @@ def effectful_member_target(assign):
     return not (simple_obj and simple_prop)
 
 
+def nested_effectful_add_assign(e):
+    """condition under which some sub-expression of e is `T += s` with an effectful member target (False if none)"""
+    conds = []
+
+    def walk(v):
+        if isinstance(v, (list, tuple)):
+            for x in v:
+                walk(x)
+            return
+        if not isinstance(v, dict) or is_lazy(v):
+            return
+        if v.get('_t') == 'Expr' and kind(v) == 'Assign' and not is_lazy(payload(v)):
+            p = payload(v)
+            c = leaf_eq(p['op']['_d'], ADD_ASSIGN)
+            if c is not False and effectful_member_target(p):
+                conds.append(c)
+        for x in v.values():
+            walk(x)
+    walk(e)
+    return z_or(conds) if conds else False
+
+
 def nested_chain_off_spine(e):
     """does the optional chain e contain another optional chain outside its own spine (obj / callee positions)?"""
     def has_chain(v):
@@ -1760,6 +1782,12 @@ def check_C01(in_view, out_view, cfg_terms=None):
                 # `o().p += s` / `a[i++] += s`: the lowering `T = hook(T + s, ..)` clones the target expression
                 r = 'behaviour/add-assign-target-evaluated-twice'
                 cond = conj([cond, leaf_eq(payload(core)['op']['_d'], ADD_ASSIGN)])
+            elif r.startswith('behaviour/') and not r.startswith(('behaviour/optional-chain', 'behaviour/call-apply', 'behaviour/unhoisted')):
+                # the same lowering nested somewhere inside the statement's expression (`x = (o().p += s)`, `f(a[i()] += s)`)
+                nested = nested_effectful_add_assign(core)
+                if nested is not False:
+                    r = 'behaviour/add-assign-target-evaluated-twice'
+                    cond = conj([cond, nested])
             if (r, str(cond)) in seen:
                 continue
             seen.add((r, str(cond)))
